@@ -46,6 +46,17 @@ fn check_df<const N: usize>(s: &str) -> Result<(), (String, String)> {
     if d2 != d {
         return Err((format!("c17:descriptor<{}>:from-iter", N), "collect::<Df88591String>() differs from From<&str>".into()));
     }
+    // FromIterator from iterators whose size_hint counts characters (a Vec<char>, a slice, take(k), an exact-size chain)
+    {
+        let v: Vec<char> = s.chars().collect();
+        let d3: Df88591String<N> = v.iter().copied().collect();
+        let d4: Df88591String<N> = v.clone().into_iter().collect();
+        let d5: Df88591String<N> = s.chars().take(N + 2).collect();
+        let d6: Df88591String<N> = v.iter().copied().take(N).chain(v.iter().copied().skip(N)).collect();
+        if d3 != d || d4 != d || d5 != d || d6 != d {
+            return Err((format!("c17:descriptor<{}>:from-iter", N), "collect::<Df88591String>() from a Vec<char> / slice / take(k) / chain differs from From<&str>".into()));
+        }
+    }
     // the other ways of reading the characters back: the iterator's own count/size_hint/nth/last, Display, a clone
     let n = want_chars.len();
     if d.chars().count() != n || d.chars().size_hint() != (n, Some(n)) || d.chars().last() != want_chars.last().copied() || (n > 0 && d.chars().nth(n / 2) != Some(want_chars[n / 2])) {
@@ -90,6 +101,20 @@ fn check_as<const N: usize>(s: &str) -> Result<(), (String, String)> {
     let a2: ArrayString<N> = s.chars().collect();
     if a2 != a {
         return Err((format!("c17:text<{}>:from-iter", N), "collect::<ArrayString>() differs from From<&str>".into()));
+    }
+    // FromIterator from iterators whose size_hint counts characters (a Vec<char>, a slice, take(k), a chain)
+    {
+        let v: Vec<char> = s.chars().collect();
+        let a3: ArrayString<N> = v.iter().copied().collect();
+        let a4: ArrayString<N> = v.clone().into_iter().collect();
+        let a5: ArrayString<N> = s.chars().take(N + 2).collect();
+        let a6: ArrayString<N> = v.iter().copied().take(N / 4 + 1).chain(v.iter().copied().skip(N / 4 + 1)).collect();
+        for (x, how) in [(&a3, "a slice iterator"), (&a4, "a Vec<char>"), (&a5, "chars().take(k)"), (&a6, "a chain")] {
+            let got = catch(|| (&**x).to_string()).map_err(|p| (format!("c17:text<{}>:invalid-utf8", N), format!("collect from {} produced bytes that are not valid UTF-8: {}", how, p)))?;
+            if got != want {
+                return Err((format!("c17:text<{}>:from-iter", N), format!("collect::<ArrayString<{}>>() from {} keeps {:?}..., the longest whole-character prefix is {:?}...", N, how, got.chars().take(12).collect::<String>(), want.chars().take(12).collect::<String>())));
+            }
+        }
     }
     // the other ways of reading it back: AsRef<str>, Display, a clone; and character by character through try_push
     let asref: &str = a.as_ref();
@@ -253,6 +278,26 @@ pub fn string_strategy() -> impl Strategy<Value = String> {
             let mut r = crate::rng::Rng::new(seed);
             crate::msggen::gen_token_text(&mut r, cap)
         }),
+        // a run of equally wide characters that just fills or just overflows a byte capacity, then a few narrower ones
+        // ("the longest prefix of whole characters": a narrower character after the one that did not fit must not be kept)
+        1 => (
+            prop_oneof![Just(3usize), Just(7usize), Just(31usize), Just(127usize), Just(255usize)],
+            2usize..5,
+            0usize..3,
+            prop::collection::vec(char_strategy(), 0..4),
+            any::<u32>(),
+        )
+            .prop_map(|(cap, width, over, tail, pick)| {
+                let wide = match width {
+                    2 => char::from_u32(0x100 + pick % 0x700).unwrap_or('\u{100}'),
+                    3 => char::from_u32(0x800 + pick % 0xC000).filter(|c| c.len_utf8() == 3).unwrap_or('\u{20AC}'),
+                    _ => char::from_u32(0x10000 + pick % 0xFFFFF).unwrap_or('\u{1F600}'),
+                };
+                let mut s: String = std::iter::repeat(wide).take(cap / width + over).collect();
+                s.push('a');
+                s.extend(tail);
+                s
+            }),
     ]
 }
 fn plain_string_strategy() -> impl Strategy<Value = String> {
@@ -272,8 +317,8 @@ const DESC_MSGS: &[u16] = &[1007, 1008, 1021, 1022, 1033, 1300, 1301, 1302];
 
 pub fn run(ctx: &Ctx, replay: Option<&J>) -> CheckResult {
     let rule = "proptest strings (ASCII, Latin-1 high half, NUL and control characters, 2/3/4-byte characters, lengths clustered around 7, 31, 127 and 255 incl. strings that are ASCII \
-        up to a multi-byte character straddling the capacity): Df88591String<N>::from for N in {1,7,31,255} against the reference mapping (first N characters, 1..255 -> byte, else \
-        0xA4, chars() back), ArrayString<N>::from for N in {1,3,7,31,127,255} against the longest whole-character prefix of <=N bytes (valid UTF-8), the same via FromIterator; \
+        up to a multi-byte character straddling the capacity, and runs of 2/3/4-byte characters that just fill or overflow a capacity followed by narrower characters): Df88591String<N>::from for N in {1,7,31,255} against the reference mapping (first N characters, 1..255 -> byte, else \
+        0xA4, chars() back), ArrayString<N>::from for N in {1,3,7,31,127,255} against the longest whole-character prefix of <=N bytes (valid UTF-8), the same via FromIterator (from chars(), a Vec<char>, a slice iterator, take(k), a chain), try_push, Display, AsRef, clone and the chars() iterator's own methods; \
         message round trips for 1029 (wire counts, bytes, >127 characters refused) and every string field of 1007/1008/1021/1022/1033/1300/1301/1302; 1029 frames with arbitrary \
         text bytes: invalid UTF-8 or a byte count beyond the body => Corrupt, valid => typed with that text. non-trivial = string with a non-ASCII character or longer than a capacity; \
         distinct = hash of the string"
